@@ -168,7 +168,7 @@ TNext ==
      /\ stale' = (stale \cup (IF trk THEN {} ELSE Changed(sg, S, ev.post))) \ KeysIn(ev.delta)
      /\ tstale' = IF ev.op.name = "assigntv"
                   THEN (IF trk THEN tstale \ {200 + ev.op.a} ELSE tstale \cup {200 + ev.op.a})
-                  ELSE IF ev.op.name \in TagOps
+                  ELSE IF ev.op.name \in TagOps /\ ev.out = "ok"   \* (a refused tag edit logs and changes nothing)
                   THEN (IF trk THEN tstale \ {ev.op.a} ELSE tstale \cup {ev.op.a})
                   ELSE tstale
      /\ maxseq' = IF ev.seqs = <<>> THEN maxseq ELSE ev.seqs[Len(ev.seqs)]
